@@ -114,16 +114,31 @@ def check_image(case):
 
 
 # ------------------------------------------------------------------ traces
+def expand(recorded):
+    """recordMemUse() ('M') records two counter events whose values are the process's memory figures"""
+    out = []
+    for r in recorded:
+        if r[0] == 'M':
+            out += [['CM', 'rkTraceVirtMem_B'], ['CM', 'rkTraceRssMem_B']]
+        else:
+            out.append(r)
+    return out
+
+
 def compare_events(idx, got, recorded):
     depth = 0
     for k, (g, r) in enumerate(zip(got, recorded)):
         kind = r[0]
-        ph = {'B': 'B', 'E': 'E', 'I': 'i', 'C': 'C'}[kind]
+        ph = {'B': 'B', 'E': 'E', 'I': 'i', 'C': 'C', 'CM': 'C'}[kind]
         if g['ph'] != ph:
             raise Violation('thread %d event %d: phase %r, recorded %r' % (idx, k, g['ph'], kind))
         if kind in ('B', 'I'):
             if g.get('name') != NAMES[r[1]] or g.get('cat') != (CATS[r[2]] if r[2] >= 0 else None):
                 raise Violation('thread %d event %d: name/cat %r/%r, recorded %r/%r' % (idx, k, g.get('name'), g.get('cat'), NAMES[r[1]], r[2]))
+        if kind == 'CM':
+            v = g.get('args', {}).get('value')
+            if g.get('name') != r[1] or not isinstance(v, int) or v <= 0:
+                raise Violation('thread %d event %d: memory counter %r=%r, recorded %r with a positive value' % (idx, k, g.get('name'), g.get('args'), r[1]))
         if kind == 'C':
             if g.get('name') != NAMES[r[1]] or g.get('args', {}).get('value') != r[2]:
                 raise Violation('thread %d event %d: counter %r=%r, recorded %r=%r' % (idx, k, g.get('name'), g.get('args'), NAMES[r[1]], r[2]))
@@ -228,7 +243,7 @@ def check_trace(case):
     total_events = 0
     for idx, t in enumerate(threads):
         ident = meta[idx][1]
-        recorded = [e for e in t['events']]
+        recorded = expand(t['events'])
         registers = bool(recorded) or t['name'] >= 0
         if ident not in tid_of:
             if registers:
@@ -324,7 +339,10 @@ def campaign(which):
                     evs.append(['E'])
                     depth -= 1
                 elif k <= 6:
-                    evs.append(['I', draw(st.integers(0, len(NAMES) - 1)), draw(st.integers(-1, len(CATS) - 1))])
+                    if draw(st.integers(0, 7)) == 0:
+                        evs.append(['M'])
+                    else:
+                        evs.append(['I', draw(st.integers(0, len(NAMES) - 1)), draw(st.integers(-1, len(CATS) - 1))])
                 else:
                     evs.append(['C', draw(st.integers(0, len(NAMES) - 1)), draw(st.sampled_from([0, 1, 2 ** 32, 2 ** 53, 2 ** 64 - 1, 12345]))])
             if draw(st.booleans()):   # close what is open (unclosed begins at the end are allowed too)
